@@ -219,3 +219,163 @@ Proof. unfold final_pins_okb. intros H Hr. rewrite Hr in H. cbn [negb] in H. cbv
       * intros Hneg. apply Z.ltb_lt in Hneg. rewrite Hneg in E2. now apply listN_eqb_eq.
       * intros Hneg. apply Z.ltb_nlt in Hneg. rewrite Hneg in E2. destruct (i_stream i); [now apply listN_eqb_eq | now apply olist_eqb_eq].
     + intros Hl. rewrite Hl in D9. exact D9. Qed.
+
+(* ---------- (1) completeness: the model's own result and trace pass every monitor ---------- *)
+Lemma subnodes_node ls : subnodes (CNode ls) = CNode ls :: flat_map subnodes ls.
+Proof. reflexivity. Qed.
+
+(* every node under the root of a DAG built by makeDAG is one of its nodes, or lies under one of the links *)
+Lemma subnodes_dag_root ml l : incl (subnodes (dag_root ml l)) (make_dag ml l ++ flat_map subnodes l).
+Proof. unfold dag_root, make_dag. destruct (N.of_nat (length l) <=? ml).
+  - rewrite subnodes_node. intros x [<-|Hx]; [now left | apply in_or_app; now right].
+  - cbv zeta. rewrite subnodes_node. set (leaves := map _ (seq 0 _)).
+    intros x [<-|Hx]; [now left|]. apply in_flat_map in Hx. destruct Hx as [leaf [Hleaf Hx]].
+    pose proof Hleaf as Hl2. unfold leaves in Hl2. apply in_map_iff in Hl2. destruct Hl2 as [k [<- _]].
+    rewrite subnodes_node in Hx. destruct Hx as [<-|Hx].
+    + apply in_or_app. left. right. exact Hleaf.
+    + apply in_or_app. right. apply in_flat_map in Hx. destruct Hx as [y [Hy Hx]]. apply in_flat_map. exists y. split; auto.
+      apply in_firstn in Hy. revert Hy. generalize (k * N.to_nat ml)%nat. intros n Hy.
+      rewrite <- (firstn_skipn n l). apply in_or_app. now right. Qed.
+
+Lemma subnodes_data_links l : flat_map subnodes (map CData l) = [].
+Proof. induction l as [|x r IH]; [reflexivity|]. exact IH. Qed.
+
+Lemma map_pcid_shard_pins e xs : forall k prv, map pcid (shard_pins_of e k prv xs) = map (shard_cid e) xs.
+Proof. induction xs as [|x r IH]; intros k prv; [reflexivity|]. cbn [shard_pins_of map pcid]. now rewrite IH. Qed.
+Lemma shard_pins_factors e xs : forall k prv p, In p (shard_pins_of e k prv xs) -> prmin p = e_rmin e /\ prmax p = e_rmax e.
+Proof. induction xs as [|x r IH]; intros k prv p H; [destruct H|]. cbn [shard_pins_of] in H. destruct H as [<-|H]; [split; reflexivity | eapply IH; eauto]. Qed.
+Lemma shard_pins_chain e xs : forall k prv, shard_chain k prv (shard_pins_of e k prv xs) = true.
+Proof. induction xs as [|x r IH]; intros k prv; [reflexivity|]. cbn [shard_pins_of shard_chain pnm pref pcid].
+  rewrite (proj2 (pname_eqb_eq _ _) eq_refl), (proj2 (ocid_eqb_eq _ _) eq_refl), IH. reflexivity. Qed.
+
+Lemma cid_neq_eqb a b : a <> b -> cid_eqb a b = false.
+Proof. intros H. destruct (cid_eqb a b) eqn:E; auto. apply cid_eqb_eq in E. contradiction. Qed.
+
+(* every shard pin of a trace whose pins satisfy the sharding invariant passes monitors 12 and 13 *)
+Section PinsGood.
+Variable i : input.
+Hypothesis Hml : 0 < i_maxlinks i.
+Variable t : list event.
+Hypothesis Hgood : forall q, In q (all_pins t) -> pty q = TShard -> shard_pin_good (env_of i) (i_stream i) q.
+
+Lemma under_limit_complete r : under_limit_okb i r t = true.
+Proof. unfold under_limit_okb. destruct (i_shard i); cbn [negb]; [|reflexivity]. cbv zeta. apply forallb_forall. intros q Hq.
+  destruct (is_shard_pin q) eqn:S; [|reflexivity]. apply is_shard_pin_iff in S.
+  destruct (Hgood q Hq S) as (l & Hc & Hs & Hlim & _). cbn [env_of e_limit e_maxlinks] in *.
+  rewrite sum_sizes_F, Hc, flatten_dag_root by exact Hml. apply andb_true_iff. split; [now apply N.ltb_lt | now apply N.eqb_eq]. Qed.
+
+Lemma depth_complete r : depth_okb i r t = true.
+Proof. unfold depth_okb. apply forallb_forall. intros q Hq.
+  destruct (is_shard_pin q) eqn:S; [|reflexivity]. apply is_shard_pin_iff in S.
+  destruct (Hgood q Hq S) as (l & Hc & _ & _ & Hd). cbn [env_of e_limit e_maxlinks] in *.
+  apply orb_true_iff. right. rewrite Hc, Hd. apply covers_dag_root. Qed.
+End PinsGood.
+
+Lemma wf_pall_good e s t : wf e (Pall e s) 0 0 0 t -> forall q, In q (all_pins t) -> pty q = TShard -> shard_pin_good e s q.
+Proof. intros W q Hq Hty. destruct (wf_all_pins _ _ _ _ _ _ _ W Hq) as [ok HP]. now apply HP. Qed.
+
+Section ShardedComplete.
+Variable i : input.
+Hypothesis Hstrict : strict (i_stream i).
+Hypothesis Hml : 0 < i_maxlinks i.
+Hypothesis Hsz : sizes_by_cid (i_stream i).
+Let e := env_of i.
+Let stream := i_stream i.
+Let root := i_root i.
+
+Lemma sharded_failure_complete er t : shard_run e stream root = (RErr er, t) -> failure_okb i (RErr er) t = true.
+Proof. intros H. unfold failure_okb. cbn [is_ok]. apply forallb_forall. intros p Hp. apply negb_true_iff, cid_neq_eqb.
+  apply (failure_no_root_pin_l e stream root Hstrict Hml Hsz er t p H Hp). Qed.
+
+Lemma sharded_delivered_complete c xs t : FinalOk e stream root stream xs t -> wf e (Pall e stream) 0 0 0 t ->
+  i_shard i = true -> delivered_okb i (ROk c) t = true.
+Proof. intros F W Hs. unfold delivered_okb. cbn [is_ok negb]. cbv zeta. rewrite Hs, data_of_puts_from, (f_data _ _ _ _ _ _ F).
+  fold stream. fold e. rewrite dedupF_eq, listN_eqb_refl. cbn [andb].
+  apply andb_true_iff. split; [apply andb_true_iff; split|].
+  - apply forallb_forall. intros [[cc ds] j] Hx. destruct (puts_from_nth t 0 cc ds j Hx) as [k [res [Hn ->]]]. rewrite N.add_0_l.
+    pose proof (wf_puts_nth _ _ _ _ _ _ _ _ _ _ W Hn) as Hr. rewrite N.add_0_l in Hr.
+    pose proof (f_putsok _ _ _ _ _ _ F) as Hall. rewrite Forall_forall in Hall. specialize (Hall _ (nth_error_In _ _ Hn)). cbn in Hall.
+    destruct res as [sr|]; [|contradiction]. symmetry in Hr. destruct (ba_add_some _ _ _ Hr) as (_ & [d [Hd Hk]] & _).
+    apply existsb_exists. exists d. split; auto. fold e. now rewrite Hk.
+  - apply andb_true_iff. split.
+    + match goal with |- negb ?a || _ = true => destruct a eqn:M; [|reflexivity] end. cbn [negb orb].
+      apply memS_set_of. apply in_dedup. now apply memS_set_of.
+    + apply forallb_forall. intros b Hb. apply forallb_forall. intros l Hl.
+      match goal with |- negb ?a || _ = true => destruct a eqn:M; [|reflexivity] end. cbn [negb orb].
+      apply memS_set_of. apply in_dedup. now apply memS_set_of.
+  - apply forallb_forall. intros p Hp. rewrite (f_pins _ _ _ _ _ _ F) in Hp.
+    assert (Hput : forall n, In n (put_cids t) -> existsb (fun x => cid_eqb n (fst (fst x))) (puts_from 0 t) = true).
+    { intros n Hn. apply (puts_from_cids t 0 n) in Hn. destruct Hn as [ds [k Hx]]. apply existsb_exists.
+      exists (n, ds, k). split; auto. apply cid_eqb_refl. }
+    assert (Hshard : forall x, In x xs -> incl (subnodes (shard_cid e x)) (put_cids t)).
+    { intros x Hx n Hn. apply (f_nodes _ _ _ _ _ _ F x Hx). unfold shard_cid in Hn. apply subnodes_dag_root in Hn.
+      rewrite subnodes_data_links, app_nil_r in Hn. exact Hn. }
+    apply in_app_or in Hp. destruct Hp as [Hp|[<-|[<-|[]]]].
+    + destruct (in_shard_pins _ _ _ _ _ Hp) as (x & Hx & Hc & Hty & _). rewrite Hty, Hc.
+      apply forallb_forall. intros n Hn. apply Hput. now apply (Hshard x Hx).
+    + cbn [cdag_pin pty pcid]. apply forallb_forall. intros n Hn. apply Hput. unfold cdag_cid in Hn.
+      apply subnodes_dag_root in Hn. apply in_app_or in Hn. destruct Hn as [Hn|Hn]; [now apply (f_cdag _ _ _ _ _ _ F)|].
+      apply in_flat_map in Hn. destruct Hn as [y [Hy Hn]]. apply in_map_iff in Hy. destruct Hy as [x [<- Hx]]. now apply (Hshard x Hx).
+    + reflexivity. Qed.
+
+Lemma sharded_partition_complete c xs t : FinalOk e stream root stream xs t -> partition_okb i (ROk c) t = true.
+Proof. intros F. unfold partition_okb. cbn [is_ok negb orb]. destruct (i_shard i); cbn [negb]; [|reflexivity]. cbv zeta.
+  rewrite (f_pins _ _ _ _ _ _ F), filter_app, shard_pins_all_shard. cbn [filter cdag_pin meta_pin is_shard_pin pty ptype_eqb]. rewrite app_nil_r.
+  rewrite shard_pins_flatten by exact Hml. rewrite (f_part _ _ _ _ _ _ F). fold stream. rewrite dedupF_eq, listN_eqb_refl. cbn [andb].
+  apply forallb_forall. intros p Hp. apply in_app_or in Hp. destruct Hp as [Hp|[<-|[<-|[]]]].
+  - destruct (in_shard_pins _ _ _ _ _ Hp) as (x & _ & _ & Hty & _). now rewrite Hty.
+  - cbn [pty pcid]. rewrite map_pcid_shard_pins. apply cid_eqb_refl.
+  - reflexivity. Qed.
+
+Lemma sharded_final_complete c xs t : c = CData root -> FinalOk e stream root stream xs t -> i_shard i = true ->
+  final_pins_okb i (ROk c) t = true.
+Proof. intros -> F Hs. unfold final_pins_okb. cbn [is_ok negb]. cbv zeta. rewrite cid_eqb_refl, Hs. cbn [andb].
+  rewrite (f_pins _ _ _ _ _ _ F), filter_app, shard_pins_all_shard. cbn [filter cdag_pin meta_pin is_shard_pin pty ptype_eqb]. rewrite app_nil_r.
+  set (SP := shard_pins_of e 0 None xs).
+  assert (Sk : skipn (length SP) (SP ++ [cdag_pin e root xs; meta_pin e root xs]) = [cdag_pin e root xs; meta_pin e root xs]).
+  { rewrite skipn_app, skipn_all, Nat.sub_diag. reflexivity. }
+  unfold cdag_pin, meta_pin in *. rewrite Sk.
+  rewrite firstn_app, firstn_all, Nat.sub_diag. cbn [firstn]. rewrite app_nil_r.
+  rewrite (proj2 (list_pin_eqb_eq SP SP) eq_refl).
+  assert (Hne : negb (Nat.eqb (length SP) 0) = true).
+  { pose proof (f_nonempty _ _ _ _ _ _ F) as Hx. unfold SP. destruct xs; [contradiction|reflexivity]. }
+  rewrite Hne.
+  assert (Hf : forallb (fun p => Z.eqb (prmin p) (i_rmin i) && Z.eqb (prmax p) (i_rmax i)) SP = true).
+  { apply forallb_forall. intros p Hp. destruct (shard_pins_factors e xs 0 None p Hp) as [-> ->]. cbn [e env_of e_rmin e_rmax]. now rewrite !Z.eqb_refl. }
+  rewrite Hf. unfold SP. rewrite shard_pins_chain. cbn [pty pnm pdepth prmin prmax pref pallocs pssize pcid ptype_eqb pname_eqb andb].
+  unfold e, root. cbn [env_of e_limit e_rmin e_rmax Z.eqb Pos.eqb].
+  rewrite ?Z.eqb_refl, ?N.eqb_refl, !(proj2 (ocid_eqb_eq _ _) eq_refl), cid_eqb_refl. cbn [listN_eqb list_eqb andb].
+  exact (f_walk _ _ _ _ _ _ F). Qed.
+
+Theorem sharded_model_passes_l r t : i_shard i = true -> shard_run e stream root = (r, t) ->
+  delivered_okb i r t = true /\ partition_okb i r t = true /\ under_limit_okb i r t = true /\ depth_okb i r t = true /\
+  final_pins_okb i r t = true /\ failure_okb i r t = true.
+Proof. intros Hs H.
+  destruct (shard_run_spec e stream Hml Hsz root stream r t (incl_refl _) Hstrict H) as (W & Herr & Hok).
+  pose proof (wf_pall_good e stream t W) as Hgood.
+  assert (H12 : under_limit_okb i r t = true) by (apply under_limit_complete; auto).
+  assert (H13 : depth_okb i r t = true) by (apply depth_complete; auto).
+  destruct r as [c|er].
+  - destruct (Hok c eq_refl) as (Hc & xs & F).
+    split; [eapply sharded_delivered_complete; eauto|]. split; [eapply sharded_partition_complete; eauto|].
+    split; [exact H12|]. split; [exact H13|]. split; [eapply sharded_final_complete; eauto | reflexivity].
+  - split; [reflexivity|]. split; [reflexivity|]. split; [exact H12|]. split; [exact H13|]. split; [reflexivity|].
+    now apply sharded_failure_complete. Qed.
+
+(* the importer gave up after its last Add: Finalize never runs *)
+Theorem sharded_aborted_passes_l r t : shard_run_aborted e stream = (r, t) ->
+  delivered_okb i r t = true /\ partition_okb i r t = true /\ under_limit_okb i r t = true /\ depth_okb i r t = true /\
+  final_pins_okb i r t = true /\ failure_okb i r t = true.
+Proof. intros H. unfold shard_run_aborted, shard_adds in H.
+  destruct (add_all (shard_add e) stream sst0) as [oe st1] eqn:Ha.
+  destruct (add_all_shard_spec e stream Hml Hsz _ _ _ _ _ _ (Inv0 e stream) (incl_refl _) Hstrict Ha) as (W & _ & _).
+  assert (Ht : t = chron (sio st1) /\ is_ok r = false) by (destruct oe; inversion H; subst; split; reflexivity).
+  destruct Ht as [-> Hr]. destruct W as [W _].
+  assert (Hgood : forall q, In q (all_pins (chron (sio st1))) -> pty q = TShard -> shard_pin_good e stream q).
+  { apply wf_pall_good. eapply wf_mono; [apply P_add_Pall|exact W]. }
+  unfold delivered_okb, partition_okb, final_pins_okb, failure_okb. rewrite Hr. cbn [negb orb].
+  split; [reflexivity|]. split; [reflexivity|]. split; [apply under_limit_complete; auto|]. split; [apply depth_complete; auto|].
+  split; [reflexivity|]. apply forallb_forall. intros p Hp. apply negb_true_iff, cid_neq_eqb. apply ok_pins_incl_all in Hp.
+  pose proof (wf_P_add_nodes e stream _ _ _ _ W) as HF. rewrite Forall_forall in HF. specialize (HF p Hp).
+  intros Hc. rewrite Hc in HF. exact HF. Qed.
+End ShardedComplete.
